@@ -36,7 +36,7 @@ VERDICT = {
     "C13-1": ("C13 K2", "after adding the JSON rendering"),
     "C13-2": ("C13 K1", "ignore kernel added after the miss"),
     "C14-1": ("C14", ""),
-    "C14-2": (None, "parser equivalence is not applicable (external compiled front end)"),
+    "C14-2": ("C17 K5 / C14", "parse_all kernel added after the miss; replay = native vs default parser runs on a two-file batch"),
     "C15-1": ("C15 K1", ""),
     "C15-2": ("C15 K2", "after modelling error exits without exception"),
     "C16-1": ("C16 K2", "after modelling gone clients"),
